@@ -18,7 +18,7 @@ Vals(d) ==
                              "Ethos_U55_High_End_Embedded/Shared_Sram", "Ethos_U55_Deep_Embedded/Shared_Sram"}
     [] d = "optimise" -> {"Size", "Performance"}
     [] d = "allocator" -> {"Greedy", "LinearAlloc", "HillClimb"}
-    [] d = "arena" -> {0, 4096, 16384, 65536, 393216, 2097152}     \* 0 = option not given
+    [] d = "arena" -> {0, 4096, 6144, 8192, 16384, 65536, 393216, 2097152}     \* 0 = option not given
     [] d = "align" -> {0, 16, 32, 64, 128, 256}                    \* 0 = option not given
     [] d = "blockdep" -> {0, 1, 2, 3}
     [] d = "flags" -> SUBSET {"sym", "verbose", "timing", "debugdb", "cpuops"}
